@@ -81,9 +81,9 @@ Definition scomplete (by_pump : bool) (s : sv) (c r : Z) : sv :=
       if h =? r then
         let s1 := upd_qm s (a_set (qm s) c t) in
         let s2 := if pendof s1 c =? r then upd_pendm s1 (a_set (pendm s1) c 0) else s1 in
-        let s3 := upd_readyC s2 (readyC s2 ++ [c]) in
-        if by_pump && negb (match readyC s2 with [] => true | _ => false end)
-        then upd_run s3 (running s3) (stopping s3) (pumpAlive s3) true else s3
+        (* the ready token is posted without waiting for room (repair of F18: before it, the pump blocked itself here
+           for good when it completed a request while a token was already pending) *)
+        upd_readyC s2 (readyC s2 ++ [c])
       else s
   end.
 
